@@ -163,7 +163,7 @@ def run_case(desc):
 
 @st.composite
 def cases(draw, mode, max_dims=4, max_len=3):
-    U = draw(gen.universes(min_dims=draw(st.sampled_from([1, 2, 2, 3])), max_dims=max_dims, max_len=max_len))
+    U = draw(gen.universes(min_dims=draw(st.sampled_from([1, 2, 2, 3])), max_dims=max_dims, max_len=max_len, long_dim=8 if mode == "coded" else 0))
     obj = mode == "sym"
     op = draw(st.sampled_from(OPS))
     allL = gen.uletters(U)
